@@ -258,6 +258,10 @@ def _pareto_obls():
     out.append(O('C11.%s_against_1v2' % a, 'harness.c11_pareto', 'against_1v2', 120, 600,
                  '%s.is_pareto_optimal_against, strict and non-strict' % a, '1 point vs 2 points x 2 coordinates',
                  env={'VERIF_PARETO': a}))
+  for a in ['naive', 'fast1', 'fast2', 'jax']:
+    out.append(O('C11.%s_against_2v1' % a, 'harness.c11_pareto', 'against_2v1', 120, 600,
+                 '%s.is_pareto_optimal_against, strict and non-strict (recursive split of the points)' % a,
+                 '2 points vs 1 point x 2 coordinates', env={'VERIF_PARETO': a}))
   for a in ['naive', 'fast1', 'fast2', 'jax', 'nsga2rank']:
     out.append(O('C11.%s_3x3' % a, 'harness.c11_pareto', 'points_3x3', None, 1500, '%s, 3 coordinates' % a,
                  '3 points x 3 coordinates: 2197 order types', env={'VERIF_PARETO': a}))
